@@ -5,7 +5,11 @@ impl  : the REAL pipeline of the scratch build -- SPHCompiler(a_evals, integrato
         renders integrator_cython.mako through IntegratorCythonHelper, pastes the
         integrator's `one_timestep`, compyle/Cython/g++ build it, and
         `Integrator.step(t, dt)` runs it on particle arrays with ghost particles
-        (periodic 1-d domain, real LinkedListNNPS / DomainManager).
+        (real LinkedListNNPS / DomainManager; every configuration is run in
+        the option matrix domain in {periodic, mirror (reflecting walls), none}
+        x integrator.set_fixed_h in {False, True}: domain and fixed_h are part
+        of the CASE, the generated source does not depend on them, so all
+        variants share one compiled module).
         Observation: *tracer* steppers and *tracer* equations (generated source,
         compiled by the same pipeline) append every invocation to one event log
         (a constant array shared by all particle arrays, so the order is total
@@ -24,9 +28,14 @@ oracle: the property statement evaluated independently of the model: the
         CPython on an object whose initialize/stageN/compute_accelerations/
         update_domain/do_post_stage record what the statement says each must
         do; plus end-to-end checks on data (neighbour counts seen by the
-        evaluator after a refresh vs brute force, ghosts after update_domain are
-        periodic images of the current real particles, stepper attributes
-        arrive in the compiled stepper).
+        evaluator after a refresh vs brute force; after EVERY
+        Integrator.update_domain() the program makes, the ghosts in the arrays
+        are exactly images (periodic translates / reflections at the mirror
+        walls / none without a domain) of the CURRENT real particles carrying
+        their current data, and every real particle within the kernel radius of
+        a face has its image -- observed at Integrator.update_domain itself, so
+        it also holds the code to account when it decides not to reach the
+        NNPS; stepper attributes arrive in the compiled stepper).
 """
 import hashlib
 import importlib
@@ -219,10 +228,8 @@ class NNPSProxy(object):
         return self._real.update()
 
     def update_domain(self):
-        k = self._rec.py_event(401.0)
-        r = self._real.update_domain()
-        self._rec.domain.append((k, ghost_check(self._arrays)))
-        return r
+        self._rec.py_event(401.0)
+        return self._real.update_domain()
 
     def __getattr__(self, n):
         return getattr(self._real, n)
@@ -247,34 +254,85 @@ class EvalProxy(object):
         return getattr(self._real, n)
 
 
-def ghost_check(arrays):
-    """after update_domain every ghost must be a periodic image (x -+ 1) of a
-    real particle of its array carrying that particle's current data"""
+DOMAINS = ('periodic', 'mirror', 'none')
+# the option matrix every configuration is run in: k-th case of a configuration
+# gets MATRIX[k % len(MATRIX)] (mirror x fixed_h first: the combination that
+# needs two options at once)
+MATRIX = [('mirror', True), ('periodic', False), ('mirror', False),
+          ('none', True), ('periodic', True), ('none', False),
+          ('mirror', True), ('periodic', False)]
+
+
+def case_domain(case):
+    """(domain kind, fixed_h) of a case; cases recorded before the option
+    matrix existed ran on the periodic domain with the default fixed_h"""
+    kind = case.get('domain', 'periodic')
+    if kind not in DOMAINS:
+        raise ValueError('unknown domain kind %r' % (kind,))
+    return kind, bool(case.get('fixed_h', False))
+
+
+def make_domain(kind):
+    from pysph.base.nnps import DomainManager
+    if kind == 'periodic':
+        return DomainManager(xmin=0.0, xmax=1.0, periodic_in_x=True)
+    if kind == 'mirror':
+        return DomainManager(xmin=0.0, xmax=1.0, mirror_in_x=True)
+    return None
+
+
+def images_of(kind, xi):
+    """the images a real particle at xi can have in the unit interval:
+    (face, image position).  All positions are multiples of 1/64 below 4 in
+    magnitude, so these expressions are exact in doubles."""
+    if kind == 'periodic':
+        return [(0.0, xi + 1.0), (1.0, xi - 1.0)]
+    if kind == 'mirror':
+        return [(0.0, 2 * 0.0 - xi), (1.0, 2 * 1.0 - xi)]
+    return []
+
+
+def ghost_check(arrays, kind):
+    """after update_domain the ghosts of every array are exactly images of its
+    CURRENT real particles:
+      * every ghost is an image (periodic: x -+ 1; mirror: reflection 2*face - x)
+        of a real particle of its array, carrying that particle's current data
+        (the per-particle step counter), no image more often than the real
+        particles account for (multiset inclusion); without a domain there is
+        no ghost at all;
+      * every real particle within the kernel radius 2h of a face has its image
+        (the ghost layer is n_layers * cell size >= 2h wide: which particles
+        beyond 2h also get one is the DomainManager's business, C07)."""
+    from collections import Counter
     bad = []
     for pa in arrays:
         nr = pa.get_number_of_particles(True)
-        x = pa.get('x', only_real_particles=False)
-        c = pa.get('cnt', only_real_particles=False)
+        x = [float(v) for v in pa.get('x', only_real_particles=False)]
+        c = [float(v) for v in pa.get('cnt', only_real_particles=False)]
         tag = pa.get('tag', only_real_particles=False)
         if any(int(v) != 0 for v in tag[:nr]) or any(int(v) == 0 for v in tag[nr:]):
             bad.append((pa.name, 'not-aligned', [int(v) for v in tag]))
             continue
-        real = set((float(x[i]), float(c[i])) for i in range(nr))
-        for j in range(nr, len(x)):
-            if (float(x[j]) - 1.0, float(c[j])) not in real and \
-                    (float(x[j]) + 1.0, float(c[j])) not in real:
-                bad.append((pa.name, 'ghost %d x=%r cnt=%r is no image of a real '
-                            'particle' % (j, float(x[j]), float(c[j])),
-                            sorted(real)))
-        # every real particle within the ghost layer must have its image
+        may = Counter()
+        must = Counter()
         for i in range(nr):
-            xi = float(x[i])
-            # (layer width is the NNPS cell size >= 2h; images are only demanded
-            # for particles within 2h of a face, which every layer covers)
-            for face, sh in ((0.0, 1.0), (1.0, -1.0)):
-                if abs(xi - face) < 2 * HSM and 0.0 <= xi < 1.0:
-                    if not any(float(x[j]) == xi + sh for j in range(nr, len(x))):
-                        bad.append((pa.name, 'real %d x=%r has no image' % (i, xi), None))
+            for face, xim in images_of(kind, x[i]):
+                may[(xim + 0.0, c[i])] += 1
+                if abs(x[i] - face) < 2 * HSM and \
+                        (kind == 'mirror' or 0.0 <= x[i] <= 1.0):
+                    must[(xim + 0.0, c[i])] += 1
+        have = Counter((x[j] + 0.0, c[j]) for j in range(nr, len(x)))
+        reals = sorted((x[i], c[i]) for i in range(nr))
+        for g, n in sorted(have.items()):
+            if n > may.get(g, 0):
+                bad.append((pa.name, '%d ghost(s) at x=%r with cnt=%r, but the current '
+                            'real particles have %d such image(s) (%s domain)'
+                            % (n, g[0], g[1], may.get(g, 0), kind), reals))
+        for g, n in sorted(must.items()):
+            if have.get(g, 0) < n:
+                bad.append((pa.name, 'the image at x=%r (cnt=%r) of a real particle within '
+                            '2h of a face is present %d time(s), needed %d (%s domain)'
+                            % (g[0], g[1], have.get(g, 0), n, kind), reals))
     return bad
 
 
@@ -293,9 +351,10 @@ def run_case(config, case, mod):
     from pysph.sph.equation import MultiStageEquations
     from pysph.sph.acceleration_eval import AccelerationEval, make_acceleration_evals
     from pysph.base.kernels import CubicSpline
-    from pysph.base.nnps import LinkedListNNPS, DomainManager
+    from pysph.base.nnps import LinkedListNNPS
     from pysph.sph.sph_compiler import SPHCompiler
 
+    kind, fixed_h = case_domain(case)
     # group names come from a process-wide counter and end up in the generated
     # source; restart it so that every case of a configuration renders the same
     # text and hits the compiled-module cache
@@ -348,13 +407,25 @@ def run_case(config, case, mod):
             raise
         out['compile_error'] = '%s: %s' % (type(e).__name__, str(e)[-300:])
         return out
-    dm = DomainManager(xmin=0.0, xmax=1.0, periodic_in_x=True)
+    dm = make_domain(kind)
     nnps = LinkedListNNPS(dim=1, particles=arrays, domain=dm)
     for ae in a_evals:
         ae.set_nnps(nnps)
     integ.set_nnps(nnps)
+    # what Solver.setup does with its fixed_h argument (--fixed-h)
+    integ.set_fixed_h(fixed_h)
     # observation points (the anchored code keeps running: these only delegate)
     integ.nnps = NNPSProxy(nnps, rec, arrays)
+    # the generated class calls `self.integrator.update_domain()`: when THAT
+    # returns the ghosts must be the images of the current real particles,
+    # whatever the Python method chose to do
+    real_update_domain = integ.update_domain
+
+    def update_domain_observed():
+        r = real_update_domain()
+        rec.domain.append((int(clk[0]), ghost_check(arrays, kind)))
+        return r
+    integ.update_domain = update_domain_observed
     integ.acceleration_evals = [EvalProxy(ae, i, rec, arrays)
                                 for i, ae in enumerate(a_evals)]
     by_name = {pa.name: pa for pa in arrays}
@@ -806,6 +877,7 @@ def worker(job):
             r['domain_bad'] = [(k, b[:3]) for k, b in out['domain'] if b][:3]
             r['n_domain'] = len(out['domain'])
             r['ghosts_present'] = out['ghosts_present']
+            r['domain'] = list(case_domain(case))
             results.append(r)
     except BaseException:      # noqa
         return {'config': config, 'fatal': traceback.format_exc()[-3000:],
@@ -991,7 +1063,9 @@ def gen_case(rng, config, prog, k):
             if st and st['hooks'] and rng.random() < 0.7:
                 m = rng.choice(st['hooks'])
                 grow[a['name']] = {m: rng.choice([1, 2])}
+    dom, fixed_h = MATRIX[k % len(MATRIX)]
     return {
+        'domain': dom, 'fixed_h': fixed_h,
         'x': x, 'steps': steps,
         'cb': (k % 4 != 3),
         'mv': {n: rng.choice([0, 1, -1, 2, 3, -5]) for n in names},
@@ -1148,10 +1222,22 @@ def evaluate(jobs_out, tab, R, gen_table):
                         'evaluator %d (call #%d, update_nnps=True) sees the %d '
                         'neighbours of %s[%d] at x=%r' % (nb[1], nb[0], nb[5], nb[2], nb[3], nb[4]),
                         'it saw %d' % nb[6])
+        dom, fixed_h = r['domain']
         for k2, b in r['domain_bad'][:1]:
             R.prop_fail('C04:%s:ghosts-after-update-domain' % who, full,
-                        'after update_domain ghosts are the periodic images of the '
-                        'current real particles', repr(b)[:400])
+                        'after every update_domain() of one_timestep the ghosts are exactly '
+                        'the images (%s) of the current real particles [domain=%s, '
+                        'fixed_h=%s]' % ({'periodic': 'periodic translates x -+ 1',
+                                          'mirror': 'reflections at the walls x=0, x=1',
+                                          'none': 'none: no domain'}[dom], dom, fixed_h),
+                        'after the update_domain() that returned at event %d: %s'
+                        % (k2, repr(b)[:600]))
+        n_d_lit = len([e for e in (lit or []) if e == 'd'])
+        if lit is not None and not (obs and obs[-1].startswith('x:')) \
+                and r['n_domain'] != n_d_lit:
+            R.prop_fail('C04:%s:update-domain-calls' % who, full,
+                        'one_timestep calls update_domain() %d times' % n_d_lit,
+                        'Integrator.update_domain ran %d times' % r['n_domain'])
         # final registers: t = last stage time of the last step
         R.count('callback:%s' % ('set' if case['cb'] else 'none'))
         R.count('steps:%d' % len(case['steps']))
@@ -1161,7 +1247,9 @@ def evaluate(jobs_out, tab, R, gen_table):
             R.count('has-update_nnps=False')
         R.count('events', len(obs))
         R.count('ghosts-present-at-start', 1 if r['ghosts_present'] else 0)
-        nontrivial = len(obs) > 3 and r['ghosts_present'] > 0
+        R.count('domain=%s,fixed_h=%s' % (dom, fixed_h))
+        R.count('ghost-checks-after-update_domain', r['n_domain'])
+        nontrivial = len(obs) > 3 and (r['ghosts_present'] > 0 or dom == 'none')
         R.case(json.dumps(full, sort_keys=True), nontrivial,
                {'integrator': ig, 'steps': case['steps'], 'observed': obs[:12],
                 'model': mi[:12], 'n_events': len(obs)} if k < 2 else None)
@@ -1321,6 +1409,21 @@ def corpus_configs(tab):
                  'nev': 1},
                 [{'x': {'fluid': [0, 20, 63]}, 'steps': [[0.5, 0.25], [0.75, 0.25]], 'cb': True,
                   'mv': {'fluid': 1}, 'sid': {'fluid': 5}, 'grow': {}}]))
+    # seed B2 (minimised): Integrator.update_domain returned early "when fixed_h
+    # and not nnps.is_periodic" -- is_periodic does not cover MIRROR domains, whose
+    # images then stay where they were at construction while the particles move.
+    # Needs set_fixed_h(True) AND a mirrored, non-periodic domain; one particle
+    # next to a wall, one stage, one step.  The other cells of the matrix for
+    # the same compiled module ride along.
+    eul = {'integrator': {'kind': 'shipped', 'cls': 'pysph.sph.integrator.EulerIntegrator'},
+           'arrays': [{'name': 'fluid', 'stepper': {'cls': 'K3', 'methods': ['stage1'],
+                                                    'hooks': []}}],
+           'nev': 1}
+    base = {'x': {'fluid': [1, 30]}, 'steps': [[0.0, 0.125]], 'cb': False,
+            'mv': {'fluid': 1}, 'sid': {'fluid': 3}, 'grow': {}}
+    out.append((eul, [dict(base, domain=d, fixed_h=f)
+                      for d, f in [('mirror', True), ('mirror', False), ('periodic', True),
+                                   ('none', True)]]))
     src2 = src.replace('self.compute_accelerations(1)', 'self.compute_accelerations(0)')
     out.append(({'integrator': {'kind': 'generated', 'source': src2},
                  'arrays': [{'name': 'fluid', 'stepper': {'cls': 'K2', 'methods': ['stage1', 'stage2'],
@@ -1403,10 +1506,11 @@ def main():
     a = H.args()
     R = H.Result(
         'case = (integrator class or generated one_timestep source, tracer stepper per array, '
-        'initial particles on a 1/64 grid in a periodic unit interval with ghost images, '
+        'initial particles on a 1/64 grid in the unit interval, domain periodic / mirror '
+        '(reflecting walls) with ghost images / none, integrator.set_fixed_h False / True, '
         'callback set or not, 1-4 consecutive steps (t, dt), hooks that add particles); '
-        'distinct = distinct (configuration, case) JSON; non-trivial = ghosts present and '
-        'more than 3 events')
+        'distinct = distinct (configuration, case) JSON; non-trivial = more than 3 events and '
+        'ghosts present (periodic, mirror) or no domain configured')
     repo = os.environ.get('PYSPH_VERIF_SCRATCH_REPO')
     if not repo:
         import pysph
